@@ -164,12 +164,34 @@ def correspondence(ctx):
 
 # ---- oracle ----------------------------------------------------------------------------------------
 def check_case(case):
+    if "session" in case:
+        # several trees evaluated one after the other in ONE fresh library state; the last one is judged (the earlier ones
+        # only have to have been computed: this is how state the library keeps between operations becomes part of the input)
+        core.fresh_impl()
+        why = None
+        for c in case["session"]:
+            why = ul.oracle_check(c.get("history", []), c["tree"], c.get("frac", False))
+        return "after {} earlier operation(s) in the same interpreter: {}".format(len(case["session"]) - 1, why) if why else None
     return ul.oracle_check(case.get("history", []), case["tree"], case.get("frac", False))
 
 
-def report(case, why):
-    small_t = ul.shrink_tree(case["tree"], lambda t: check_case(dict(case, tree=t)) is not None)
+def fails_alone(case):
+    core.fresh_impl()
+    return check_case(case) is not None
+
+
+def report(case, why, journal=()):
+    if not fails_alone(case):
+        # the tree is fine on its own: it fails because of what was computed before it in this process
+        if check_case({"session": list(journal) + [case]}) is None:
+            return Violation(ID, "tree", case, why + " (only after the cases of this run, not reproduced from a fresh library state)")
+        prefix = core.minimize_session(list(journal), lambda p: check_case({"session": p + [case]}) is not None)
+        sess = {"session": prefix + [case]}
+        return Violation(ID, "tree", sess, check_case(sess) or why)
+    # every candidate is judged from a fresh library state, so the shrunk tree fails on its own
+    small_t = ul.shrink_tree(case["tree"], lambda t: fails_alone(dict(case, tree=t)))
     small = dict(case, tree=small_t)
+    core.fresh_impl()
     return Violation(ID, "tree", small, check_case(small) or why)
 
 
@@ -190,6 +212,8 @@ def search(ctx, suspects, budget):
     stride = max(1, len(fam) // ctx.n(1500, 12000))
     todo += [{"history": [], "tree": t, "frac": False} for t in fam[::stride]]
     n = 0
+    core.fresh_impl()
+    journal = []
     while len(out) < 3:
         if todo:
             case = todo.pop(0)
@@ -201,12 +225,23 @@ def search(ctx, suspects, budget):
         n += 1
         if case.get("history"):
             continue
+        if "session" in case:      # a recorded session (corpus / replayed suspect): judged on its own
+            why = check_case(case)
+            if why:
+                out.append(Violation(ID, "tree", case, why))
+            core.fresh_impl()
+            journal = []
+            continue
         why = check_case(case)
         if why:
-            v = report(case, why)
+            v = report(case, why, journal)
             if v.key not in seen:
                 seen.add(v.key)
                 out.append(v)
+            core.fresh_impl()     # report() restarted the library: the journal starts again
+            journal = []
+        else:
+            journal.append(case)
     ul.reset_state()
     ctx.notes.append("oracle: {} trees checked against Fraction dimensional analysis".format(n))
     return out
